@@ -741,3 +741,372 @@ Example rawjson_recv_valid_nonvacuous :
   (* a bare number followed by a bracket: the record is the number *)
   recv None [49; 50; 91] = Ok [49; 50] None [91].
 Proof. vm_compute. auto. Qed.
+
+(* ------------------------------------------------------------------------------------------- *)
+(* Part 5: the converse - every value of the independent grammar is delimited by the scanner at
+   the same place; hence json_record (the record class of C11) is exactly: a text that the grammar
+   of Json.v accepts as one value without surrounding white space and that starts with an opening
+   brace, bracket or quote. *)
+
+(* strings *)
+Lemma pstr_scan_len : forall m s b r,
+  (length s <= m)%nat -> Json.pstr s = Some (b, r) -> scan_str SPlain s = Done r.
+Proof.
+  induction m as [|m IH]; intros s b r Hl H.
+  - destruct s; [discriminate | cbn in Hl; lia].
+  - destruct s as [|c s1]; [discriminate|]. cbn [Json.pstr] in H. unfold Json.sclass_of in H. cbn [scan_str].
+    destruct (c =? 34) eqn:E34; [now inversion H|].
+    destruct (c =? 92) eqn:E92.
+    { destruct s1 as [|e s2]; [discriminate|]. cbn [scan_str].
+      unfold Json.eclass_of in H.
+      change ((e =? 98) || (e =? 102) || (e =? 110) || (e =? 114) || (e =? 116) || (e =? 92) || (e =? 47) || (e =? 34))
+        with (is_esc1 e) in H.
+      destruct (is_esc1 e) eqn:Ee.
+      - destruct (Json.pstr s2) as [[b' r']|] eqn:Ep; [|discriminate]. inversion H; subst.
+        apply (IH s2 b'); [cbn in Hl; lia | exact Ep].
+      - destruct (e =? 117) eqn:Eu; [|discriminate].
+        destruct s2 as [|h1 [|h2 [|h3 [|h4 s6]]]]; try discriminate.
+        rewrite (is_hex_same h1), (is_hex_same h2), (is_hex_same h3), (is_hex_same h4) in H.
+        cbn [scan_str].
+        destruct (is_hex h1); [|discriminate]. destruct (is_hex h2); [|discriminate].
+        destruct (is_hex h3); [|discriminate]. destruct (is_hex h4); [|discriminate]. cbn [andb] in H.
+        destruct (Json.pstr s6) as [[b' r']|] eqn:Ep; [|discriminate]. inversion H; subst.
+        apply (IH s6 b'); [cbn in Hl; lia | exact Ep]. }
+    destruct (c <? 32) eqn:Ec; [discriminate|].
+    destruct (Json.pstr s1) as [[b' r']|] eqn:Ep; [|discriminate]. inversion H; subst.
+    apply (IH s1 b'); [cbn in Hl; lia | exact Ep].
+Qed.
+
+Lemma pstr_scan s b r : Json.pstr s = Some (b, r) -> scan_str SPlain s = Done r.
+Proof. apply (pstr_scan_len (length s)). lia. Qed.
+
+(* numbers *)
+Definition head_nondigit (s : bytes) : Prop := match s with c :: _ => is_digit c = false | [] => True end.
+
+Lemma digits_spec : forall s ds r, Json.digits s = (ds, r) ->
+  head_nondigit r /\
+  scan_num NInt s = scan_num NInt r /\ scan_num NFrac s = scan_num NFrac r /\ scan_num NExpDig s = scan_num NExpDig r /\
+  (ds = [] -> r = s) /\
+  (ds <> [] -> exists c x, s = c :: x /\ is_digit c = true /\ exists ds', Json.digits x = (ds', r)).
+Proof.
+  induction s as [|c s IH]; intros ds r H; cbn [Json.digits] in H.
+  - inversion H; subst. repeat split; auto. congruence.
+  - rewrite is_digit_same in H. destruct (is_digit c) eqn:Ed.
+    + destruct (Json.digits s) as [d r'] eqn:E. inversion H; subst ds r'.
+      destruct (IH d r eq_refl) as [H1 [H2 [H3 [H4 _]]]].
+      split; [exact H1|]. cbn [scan_num]. rewrite Ed. repeat split; auto; [discriminate|].
+      intros _. exists c, s. repeat split; auto. eauto.
+    + inversion H; subst ds r. split; [exact Ed|]. repeat split; auto. congruence.
+Qed.
+
+Lemma expdig_done r : head_nondigit r -> scan_num NExpDig r = Done r.
+Proof. destruct r as [|c r]; cbn; [reflexivity|]. now intros ->. Qed.
+
+(* the exponent part, from a state that has just read the mantissa *)
+Lemma exp_scan st s ep r :
+  (forall c x, is_exp c = true -> scan_num st (c :: x) = scan_num NExp x) ->
+  (forall c x, s = c :: x -> is_exp c = false -> scan_num st (c :: x) = Done (c :: x)) ->
+  scan_num st [] = Done [] ->
+  Json.p_exp s = Some (ep, r) -> scan_num st s = Done r.
+Proof.
+  intros Hexp Hstop Hnil H. destruct s as [|c s']; [cbn in H; inversion H; subst; exact Hnil|].
+  cbn [Json.p_exp] in H. change ((c =? 101) || (c =? 69)) with (is_exp c) in H.
+  destruct (is_exp c) eqn:Ee.
+  - rewrite (Hexp c s' Ee).
+    destruct s' as [|c1 x]; [cbn in H; discriminate|]. cbn [Json.p_esign] in H.
+    change ((c1 =? 43) || (c1 =? 45)) with (is_sign c1) in H. cbn [scan_num].
+    destruct (is_sign c1) eqn:Es.
+    + destruct (Json.digits x) as [d r'] eqn:Ed. destruct d as [|d0 d']; [discriminate|].
+      inversion H; subst r'.
+      destruct (digits_spec _ _ _ Ed) as [Hh [_ [_ [_ [_ Hne]]]]].
+      destruct (Hne ltac:(discriminate)) as [c2 [x2 [-> [Hc2 [ds' Hds']]]]].
+      cbn [scan_num]. rewrite Hc2.
+      destruct (digits_spec _ _ _ Hds') as [_ [_ [_ [-> _]]]]. now apply expdig_done.
+    + destruct (Json.digits (c1 :: x)) as [d r'] eqn:Ed. destruct d as [|d0 d']; [discriminate|].
+      inversion H; subst r'.
+      destruct (digits_spec _ _ _ Ed) as [Hh [_ [_ [_ [_ Hne]]]]].
+      destruct (Hne ltac:(discriminate)) as [c2 [x2 [E2 [Hc2 [ds' Hds']]]]]. inversion E2; subst c2 x2.
+      rewrite Hc2. destruct (digits_spec _ _ _ Hds') as [_ [_ [_ [-> _]]]]. now apply expdig_done.
+  - inversion H; subst. now apply Hstop.
+Qed.
+
+Lemma is_exp_cases c : is_exp c = true -> c = 101 \/ c = 69.
+Proof. unfold is_exp. intros H. apply orb_true_iff in H. destruct H as [H|H]; apply N.eqb_eq in H; auto. Qed.
+
+Lemma exp_scan_frac s ep r : head_nondigit s -> Json.p_exp s = Some (ep, r) -> scan_num NFrac s = Done r.
+Proof.
+  intros Hh. apply exp_scan; [| |reflexivity].
+  - intros c x Hc. cbn [scan_num]. rewrite Hc. destruct (is_exp_cases c Hc) as [-> | ->]; reflexivity.
+  - intros c x -> Hc. cbn [scan_num]. cbn in Hh. now rewrite Hh, Hc.
+Qed.
+
+(* fraction and exponent, from state0 (after a leading zero: the next byte may be a digit - it then
+   starts the next value) and from state1 (after the digits of the integer part) *)
+Lemma after_int_scan st s r :
+  (st = NZero \/ (st = NInt /\ head_nondigit s)) -> after_int s r -> scan_num st s = Done r.
+Proof.
+  intros Hst [fp [s3 [ep [Hf He]]]].
+  assert (Hnil : scan_num st [] = Done []) by (destruct Hst as [-> | [-> _]]; reflexivity).
+  assert (Hdot : forall x, scan_num st (46 :: x) = scan_num NDot x) by (intros x; destruct Hst as [-> | [-> _]]; reflexivity).
+  assert (Hexp : forall c x, is_exp c = true -> scan_num st (c :: x) = scan_num NExp x).
+  { intros c x Hc. destruct (is_exp_cases c Hc) as [-> | ->]; destruct Hst as [-> | [-> _]]; reflexivity. }
+  assert (Hstop : forall c x, s = c :: x -> (c =? 46) = false -> is_exp c = false -> scan_num st (c :: x) = Done (c :: x)).
+  { intros c x -> H46 Hc. destruct Hst as [-> | [-> Hh]]; cbn [scan_num].
+    - now rewrite H46, Hc.
+    - cbn in Hh. now rewrite Hh, H46, Hc. }
+  destruct s as [|c s']; [cbn in Hf; inversion Hf; subst; cbn in He; inversion He; subst; exact Hnil|].
+  cbn [Json.p_frac] in Hf. destruct (c =? 46) eqn:E46.
+  - apply N.eqb_eq in E46. subst c. rewrite Hdot.
+    destruct (Json.digits s') as [d r'] eqn:Ed. destruct d as [|d0 d']; [discriminate|]. inversion Hf; subst fp s3.
+    destruct (digits_spec _ _ _ Ed) as [Hh [_ [_ [_ [_ Hne]]]]].
+    destruct (Hne ltac:(discriminate)) as [c1 [x1 [-> [Hc1 [ds' Hds']]]]].
+    cbn [scan_num]. rewrite Hc1.
+    destruct (digits_spec _ _ _ Hds') as [_ [_ [-> _]]]. now apply (exp_scan_frac r' ep).
+  - inversion Hf; subst fp s3. apply (exp_scan st (c :: s') ep r); auto.
+    intros c0 x E Hc. inversion E; subst c0 x. now apply Hstop.
+Qed.
+
+Lemma pnum_scan c s n r : Json.pnum (c :: s) = Some (n, r) ->
+  (c = 45 /\ scan_num NNeg s = Done r) \/ (c = 48 /\ scan_num NZero s = Done r) \/
+  (is_digit19 c = true /\ scan_num NInt s = Done r).
+Proof.
+  unfold Json.pnum. intros H.
+  assert (Int : forall x ip s2, Json.p_int x = Some (ip, s2) -> after_int s2 r ->
+            exists c1 x1, x = c1 :: x1 /\
+              ((c1 = 48 /\ scan_num NZero x1 = Done r) \/ (is_digit19 c1 = true /\ scan_num NInt x1 = Done r))).
+  { intros x ip s2 Hi Ha. destruct x as [|c1 x1]; [discriminate|]. exists c1, x1. split; [reflexivity|].
+    cbn [Json.p_int] in Hi. destruct (c1 =? 48) eqn:E48.
+    - apply N.eqb_eq in E48. inversion Hi; subst. left. split; [reflexivity|]. apply after_int_scan; [now left | exact Ha].
+    - rewrite is_digit_same in Hi. destruct (is_digit c1) eqn:Ed; [|discriminate].
+      destruct (Json.digits x1) as [d r'] eqn:Edd. inversion Hi; subst ip s2.
+      destruct (digits_spec _ _ _ Edd) as [Hh [-> _]]. right. split.
+      + unfold is_digit19. unfold is_digit in Ed. apply andb_true_iff in Ed. destruct Ed as [E1 E2].
+        apply N.leb_le in E1. apply N.eqb_neq in E48. apply andb_true_iff. split; [apply N.leb_le; lia | exact E2].
+      + apply after_int_scan; [right; auto | exact Ha]. }
+  cbn [Json.p_sign] in H. destruct (c =? 45) eqn:E45.
+  - apply N.eqb_eq in E45. subst c.
+    destruct (Json.p_int s) as [[ip s2]|] eqn:Ei; [|discriminate].
+    destruct (Json.p_frac s2) as [[fp s3]|] eqn:Ef; [|discriminate].
+    destruct (Json.p_exp s3) as [[ep s4]|] eqn:Ee; [|discriminate]. inversion H; subst s4.
+    destruct (Int s ip s2 Ei) as [c1 [x1 [-> Hc]]]; [exists fp, s3, ep; auto|].
+    left. split; [reflexivity|]. cbn [scan_num].
+    destruct Hc as [[-> Hc]|[H19 Hc]]; [exact Hc|].
+    destruct (digit19_props c1 H19) as [_ [H48 _]]. now rewrite H48, H19.
+  - destruct (Json.p_int (c :: s)) as [[ip s2]|] eqn:Ei; [|discriminate].
+    destruct (Json.p_frac s2) as [[fp s3]|] eqn:Ef; [|discriminate].
+    destruct (Json.p_exp s3) as [[ep s4]|] eqn:Ee; [|discriminate]. inversion H; subst s4.
+    destruct (Int (c :: s) ip s2 Ei) as [c1 [x1 [E Hc]]]; [exists fp, s3, ep; auto|].
+    inversion E; subst c1 x1. right. destruct Hc as [Hc|Hc]; [left | right]; exact Hc.
+Qed.
+
+(* scalars: literals and numbers, as scan_value reads them *)
+Lemma pscalar_scan f d c0 s c r :
+  Json.tok_of c0 = Json.TOther -> is_ws c0 = false ->
+  Json.pscalar (c0 :: s) = Some (c, r) -> scan_value (S f) d (c0 :: s) = Done r.
+Proof.
+  intros Htok Hws H. rewrite scan_value_S, (skip_ws_nows c0 s Hws). unfold Json.pscalar in H.
+  destruct (Json.strip_prefix Json.lit_true (c0 :: s)) as [r1|] eqn:E1.
+  { inversion H; subst. apply JsonProofs.strip_prefix_sound in E1. inversion E1; subst. exact (scan_lit_app lit_rue r). }
+  destruct (Json.strip_prefix Json.lit_false (c0 :: s)) as [r2|] eqn:E2.
+  { inversion H; subst. apply JsonProofs.strip_prefix_sound in E2. inversion E2; subst. exact (scan_lit_app lit_alse r). }
+  destruct (Json.strip_prefix Json.lit_null (c0 :: s)) as [r3|] eqn:E3.
+  { inversion H; subst. apply JsonProofs.strip_prefix_sound in E3. inversion E3; subst. exact (scan_lit_app lit_ull r). }
+  destruct (Json.pnum (c0 :: s)) as [[n r4]|] eqn:E4; [|discriminate]. inversion H; subst.
+  destruct (pnum_scan _ _ _ _ E4) as [[-> Hn]|[[-> Hn]|[H19 Hn]]]; [exact Hn | exact Hn|].
+  destruct (digit19_props c0 H19) as [_ [H48 [H45 Hr]]].
+  assert (H34 : (c0 =? 34) = false) by (apply N.eqb_neq; lia).
+  assert (H123 : (c0 =? 123) = false) by (apply N.eqb_neq; lia).
+  assert (H91 : (c0 =? 91) = false) by (apply N.eqb_neq; lia).
+  now rewrite H34, H123, H91, H45, H48, H19.
+Qed.
+
+Lemma tok_is c t : Json.tok_of c = t ->
+  match t with
+  | Json.TQuote => c = 34 | Json.TLBrack => c = 91 | Json.TRBrack => c = 93 | Json.TLBrace => c = 123
+  | Json.TRBrace => c = 125 | Json.TComma => c = 44 | Json.TColon => c = 58 | _ => True
+  end.
+Proof.
+  intros H. assert (Ht : Json.tk (c :: []) = (t, [])) by (cbn [Json.tk]; now rewrite H).
+  pose proof (JsonPrint.tk_inv _ _ _ Ht) as Hi. destruct t; try exact I; now inversion Hi.
+Qed.
+
+Lemma skip_ws_idem s : skip_ws (skip_ws s) = skip_ws s.
+Proof.
+  induction s as [|c s IH]; [reflexivity|]. cbn [skip_ws]. destruct (is_ws c) eqn:E; [exact IH|].
+  cbn [skip_ws]. now rewrite E.
+Qed.
+
+Lemma scan_value_skip f d s : scan_value f d (skip_ws s) = scan_value f d s.
+Proof. destruct f as [|f]; [reflexivity|]. rewrite !scan_value_S. now rewrite skip_ws_idem. Qed.
+
+Lemma scan_elems_skip f d s : scan_elems f d (skip_ws s) = scan_elems f d s.
+Proof. destruct f as [|f]; [reflexivity|]. rewrite !scan_elems_S. now rewrite scan_value_skip. Qed.
+
+Lemma scan_members_skip f d s : scan_members f d (skip_ws s) = scan_members f d s.
+Proof. destruct f as [|f]; [reflexivity|]. rewrite !scan_members_S. now rewrite skip_ws_idem. Qed.
+
+Lemma ps_all : forall g,
+  (forall d s c r, Json.pval g d s = Some (c, r) ->
+     forall f, scan_value f d s <> NoFuel -> scan_value f d s = Done r) /\
+  (forall d w s es r, Json.pelems g d w s = Some (es, r) ->
+     forall f, scan_elems f d s <> NoFuel -> scan_elems f d s = Done r) /\
+  (forall d w s ms r, Json.pmems g d w s = Some (ms, r) ->
+     forall f, scan_members f d s <> NoFuel -> scan_members f d s = Done r).
+Proof.
+  induction g as [|g [IHv [IHe IHm]]].
+  - repeat split; intros; discriminate.
+  - repeat split.
+    + (* value *)
+      intros d s c r H f Hf. destruct f as [|f]; [now elim Hf|].
+      destruct (JsonPrint.pval_not_ws _ _ _ _ _ H) as [c0 [s' [-> Hws]]]. rewrite is_ws_same in Hws.
+      cbn [Json.pval Json.tk] in H.
+      destruct (Json.tok_of c0) eqn:Et; try discriminate.
+      * (* string *)
+        pose proof (tok_is _ _ Et) as Hc0. cbv iota in Hc0. subst c0.
+        destruct (Json.pstr s') as [[b r']|] eqn:Ep; [|discriminate]. inversion H; subst.
+        rewrite scan_value_S. cbn [skip_ws is_ws N.eqb Pos.eqb orb]. change (34 =? 34) with true. cbv iota.
+        now apply (pstr_scan s' b).
+      * (* array *)
+        pose proof (tok_is _ _ Et) as Hc0. cbv iota in Hc0. subst c0.
+        change Json.max_depth with max_depth in H.
+        rewrite scan_value_S in *. rewrite (skip_ws_nows 91 s' Hws) in *.
+        change (91 =? 34) with false in *. change (91 =? 123) with false in *. change (91 =? 91) with true in *. cbv iota in *.
+        destruct (max_depth <=? d) eqn:Ed; [discriminate|].
+        destruct (split_ws_skip s') as [w Hw]. rewrite Hw in H.
+        destruct (skip_ws s') as [|c2 s2] eqn:E2.
+        { cbn [Json.tk] in H. rewrite JsonPrint.pelems_nil in H. discriminate. }
+        cbn [Json.tk] in H. destruct (N.eqb_spec c2 93) as [->|N93].
+        { change (Json.tok_of 93) with Json.TRBrack in H. now inversion H. }
+        assert (Hpe : exists es, Json.pelems g (N.succ d) w (c2 :: s2) = Some (es, r)).
+        { destruct (Json.tok_of c2) eqn:Et2;
+            try (destruct (Json.pelems g (N.succ d) w (c2 :: s2)) as [[es r3]|]; [inversion H; subst; eauto | discriminate]).
+          exfalso. apply N93. now apply tok_rbrack. }
+        destruct Hpe as [es Hpe]. rewrite <- N.add_1_r in Hpe. now apply (IHe _ _ _ _ _ Hpe).
+      * (* object *)
+        pose proof (tok_is _ _ Et) as Hc0. cbv iota in Hc0. subst c0.
+        change Json.max_depth with max_depth in H.
+        rewrite scan_value_S in *. rewrite (skip_ws_nows 123 s' Hws) in *.
+        change (123 =? 34) with false in *. change (123 =? 123) with true in *. cbv iota in *.
+        destruct (max_depth <=? d) eqn:Ed; [discriminate|].
+        destruct (split_ws_skip s') as [w Hw]. rewrite Hw in H.
+        destruct (skip_ws s') as [|c2 s2] eqn:E2.
+        { cbn [Json.tk] in H. rewrite JsonPrint.pmems_nil in H. discriminate. }
+        cbn [Json.tk] in H. destruct (N.eqb_spec c2 125) as [->|N125].
+        { change (Json.tok_of 125) with Json.TRBrace in H. now inversion H. }
+        assert (Hpm : exists ms, Json.pmems g (N.succ d) w (c2 :: s2) = Some (ms, r)).
+        { destruct (Json.tok_of c2) eqn:Et2;
+            try (destruct (Json.pmems g (N.succ d) w (c2 :: s2)) as [[ms r3]|]; [inversion H; subst; eauto | discriminate]).
+          exfalso. apply N125. now apply tok_rbrace. }
+        destruct Hpm as [ms Hpm]. rewrite <- N.add_1_r in Hpm. now apply (IHm _ _ _ _ _ Hpm).
+      * (* scalar *)
+        now apply (pscalar_scan f d c0 s' c r Et Hws).
+    + (* elements *)
+      intros d w s es r H f Hf. destruct f as [|f]; [now elim Hf|].
+      cbn [Json.pelems] in H. rewrite scan_elems_S in *.
+      destruct (Json.pval g d s) as [[c0 r1]|] eqn:Ev; [|discriminate].
+      assert (Hv : scan_value f d s = Done r1).
+      { apply (IHv _ _ _ _ Ev). intros E. rewrite E in Hf. now apply Hf. }
+      rewrite Hv in *.
+      destruct (split_ws_skip r1) as [wa Hwa]. rewrite Hwa in H.
+      destruct (skip_ws r1) as [|c r'] eqn:Er; [cbn [Json.tk] in H; discriminate|].
+      cbn [Json.tk] in H. destruct (Json.tok_of c) eqn:Et; try discriminate.
+      * (* ] *) apply tok_rbrack in Et. subst c. inversion H; subst. reflexivity.
+      * (* , *)
+        pose proof (tok_is _ _ Et) as Hc. cbv iota in Hc. subst c.
+        change (44 =? 44) with true in *. cbv iota in *.
+        destruct (split_ws_skip r') as [wb Hwb]. rewrite Hwb in H.
+        destruct (Json.pelems g d wb (skip_ws r')) as [[es' r5]|] eqn:Ee; [|discriminate]. inversion H; subst.
+        rewrite <- scan_elems_skip in *. now apply (IHe _ _ _ _ _ Ee).
+    + (* members *)
+      intros d w s ms r H f Hf. destruct f as [|f]; [now elim Hf|].
+      cbn [Json.pmems] in H. rewrite scan_members_S in *.
+      destruct s as [|c s1]; [discriminate|]. cbn [Json.tk] in H.
+      destruct (Json.tok_of c) eqn:Et; try discriminate.
+      pose proof (tok_is _ _ Et) as Hc. cbv iota in Hc. subst c.
+      change (skip_ws (34 :: s1)) with (34 :: s1) in *. change (34 =? 34) with true in *. cbv iota in *.
+      destruct (Json.pstr s1) as [[k r1]|] eqn:Ep; [|discriminate].
+      rewrite (pstr_scan _ _ _ Ep) in *.
+      destruct (split_ws_skip r1) as [wc Hwc]. rewrite Hwc in H.
+      destruct (skip_ws r1) as [|c2 r3] eqn:E2; [cbn [Json.tk] in H; discriminate|].
+      cbn [Json.tk] in H. destruct (Json.tok_of c2) eqn:Et2; try discriminate.
+      pose proof (tok_is _ _ Et2) as Hc2. cbv iota in Hc2. subst c2.
+      change (58 =? 58) with true in *. cbv iota in *.
+      destruct (split_ws_skip r3) as [wv Hwv]. rewrite Hwv in H.
+      destruct (Json.pval g d (skip_ws r3)) as [[c0 r5]|] eqn:Ev; [|discriminate].
+      assert (Hv : scan_value f d r3 = Done r5).
+      { rewrite <- scan_value_skip. apply (IHv _ _ _ _ Ev). rewrite scan_value_skip.
+        intros E. rewrite E in Hf. now apply Hf. }
+      rewrite Hv in *.
+      destruct (split_ws_skip r5) as [wa Hwa]. rewrite Hwa in H.
+      destruct (skip_ws r5) as [|c3 r7] eqn:E5; [cbn [Json.tk] in H; discriminate|].
+      cbn [Json.tk] in H. destruct (Json.tok_of c3) eqn:Et3; try discriminate.
+      * (* } *) pose proof (tok_is _ _ Et3) as Hc3. cbv iota in Hc3. subst c3. inversion H; subst. reflexivity.
+      * (* , *)
+        pose proof (tok_is _ _ Et3) as Hc3. cbv iota in Hc3. subst c3.
+        change (44 =? 44) with true in *. cbv iota in *.
+        destruct (split_ws_skip r7) as [wb Hwb]. rewrite Hwb in H.
+        destruct (Json.pmems g d wb (skip_ws r7)) as [[ms' r9]|] eqn:Em; [|discriminate]. inversion H; subst.
+        rewrite <- scan_members_skip in *. now apply (IHm _ _ _ _ _ Em).
+Qed.
+
+Theorem parser_value_scans : forall g d s c r,
+  Json.pval g d s = Some (c, r) -> forall f, scan_value f d s <> NoFuel -> scan_value f d s = Done r.
+Proof. intros g d s c r H. exact (proj1 (ps_all g) d s c r H). Qed.
+
+(* a text that is exactly one value of the grammar (no surrounding white space) is scanned to its end *)
+Theorem tight_scan : forall r, Json.tight_at 0 r = true -> scan r = Done [].
+Proof.
+  intros r H. destruct (JsonPrint.tight_PV _ _ H) as [c Hc].
+  pose proof (JsonPrint.PV_value_at _ _ _ _ Hc) as Hv. unfold Json.value_at in Hv.
+  unfold scan. apply (parser_value_scans _ _ _ _ _ Hv).
+  pose proof (scan_fuel_ok r) as P. unfold scan in P. intros E. rewrite E in P. exact P.
+Qed.
+
+Definition starts_container_or_string (r : bytes) : Prop :=
+  exists c t, r = c :: t /\ (c = 123 \/ c = 91 \/ c = 34).
+
+(* json_record - the record class of the C11 round trip, defined with the scanner - is exactly:
+   one value of the independent grammar, without surrounding white space, that is an object, an
+   array or a string *)
+Theorem json_record_iff : forall r,
+  json_record r = true <-> starts_container_or_string r /\ Json.tight_at 0 r = true.
+Proof.
+  intros r. split.
+  - intros H. destruct (json_record_head r H) as [c [t [-> [Hc Hk]]]]. split; [exists c, t; auto|].
+    unfold json_record in H. apply andb_true_iff in H. destruct H as [_ H].
+    destruct (scan (c :: t)) as [[|]| | |] eqn:E; try discriminate.
+    destruct (scan_value_parses _ _ _ _ E) as [cst Hpv]. rewrite (skip_ws_nows c t Hc) in Hpv.
+    exact (JsonPrint.PV_tight _ _ _ Hpv).
+  - intros [[c [t [-> Hk]]] H]. unfold json_record. rewrite (tight_scan _ H).
+    destruct Hk as [-> | [-> | ->]]; reflexivity.
+Qed.
+
+(* completeness against the independent grammar: every value of the grammar that is not a number
+   (an object, array, string or literal), whatever follows it, is returned by Recv - null as the
+   empty record *)
+Theorem rawjson_complete : forall r rest,
+  Json.tight_at 0 r = true -> nonnum r ->
+  recv None (r ++ rest) = Ok (if is_null r then [] else r) None rest.
+Proof.
+  intros r rest H Hnn. pose proof (tight_scan r H) as Hs.
+  assert (Hext : scan (r ++ rest) = Done rest).
+  { unfold scan in *. apply (proj1 (ext_all _) 0 r [] Hs (or_intror Hnn) rest).
+    unfold scan_fuel. rewrite app_length. lia. }
+  destruct (JsonPrint.tight_PV _ _ H) as [c Hc].
+  pose proof (JsonPrint.PV_value_at _ _ _ _ Hc) as Hv. unfold Json.value_at in Hv.
+  destruct (JsonPrint.pval_not_ws _ _ _ _ _ Hv) as [x [t [-> Hx]]]. rewrite is_ws_same in Hx.
+  unfold recv. cbn [app skip_ws]. rewrite Hx. cbn [app] in Hext. rewrite Hext.
+  change (x :: t ++ rest) with ((x :: t) ++ rest). now rewrite span_before_app.
+Qed.
+
+Example rawjson_complete_nonvacuous :
+  Json.tight_at 0 [91; 49; 44; 32; 123; 125; 93] = true /\ nonnum [91; 49; 44; 32; 123; 125; 93] /\
+  Json.tight_at 0 [110; 117; 108; 108] = true /\ nonnum [110; 117; 108; 108] /\
+  recv None ([110; 117; 108; 108] ++ [123]) = Ok [] None [123].
+Proof. vm_compute. auto. Qed.
+
+Example json_record_iff_nonvacuous :
+  json_record [123; 34; 97; 34; 58; 91; 93; 125] = true /\ Json.tight_at 0 [123; 34; 97; 34; 58; 91; 93; 125] = true /\
+  Json.tight_at 0 [49; 50] = true /\ json_record [49; 50] = false /\
+  Json.tight_at 0 [123; 125; 32] = false /\ json_record [123; 125; 32] = false.
+Proof. vm_compute. repeat split. Qed.
